@@ -586,3 +586,162 @@ func c01ValueOfParam(root *ssa.Function, prm *ssa.Parameter) func(ssa.Value) boo
 	}
 	return func(v ssa.Value) bool { return match(v, 0) }
 }
+
+// ---- local cells (round 9) ----
+//
+// A local variable that closures used to capture stays an address-taken cell
+// (Alloc) after the loader has inlined those closures: its value at a load is not
+// a φ but the set of stores that reach the load. The helpers below read such a
+// cell the way a φ is read: one leaf per reaching store, and – when the stores
+// merge at a block with several predecessors – the CFG edge (pred → merge block)
+// the value arrives through.
+
+// c01LocalCell: every use of al is a load from it or a store into it (its address
+// is not captured, passed, stored or offset), so the stores of its own function
+// are all the writes there are.
+func c01LocalCell(al *ssa.Alloc) bool {
+	if al.Referrers() == nil {
+		return false
+	}
+	for _, r := range *al.Referrers() {
+		switch x := r.(type) {
+		case *ssa.Store:
+			if x.Addr != ssa.Value(al) || x.Val == ssa.Value(al) {
+				return false
+			}
+		case *ssa.UnOp:
+			if x.Op != token.MUL {
+				return false
+			}
+		case *ssa.DebugRef:
+		default:
+			return false
+		}
+	}
+	return true
+}
+
+// c01CellLoad decomposes v into a load of a local cell.
+func c01CellLoad(v ssa.Value) (*ssa.UnOp, *ssa.Alloc) {
+	u, ok := v.(*ssa.UnOp)
+	if !ok || u.Op != token.MUL {
+		return nil, nil
+	}
+	al, ok := u.X.(*ssa.Alloc)
+	if !ok || !c01LocalCell(al) {
+		return nil, nil
+	}
+	return u, al
+}
+
+type c01CellDef struct {
+	val  ssa.Value  // the stored value; the Alloc itself: no store on that path (zero value)
+	edge *core.Edge // the edge into the merge block nearest to the load; nil: one store reaches the load on every path
+}
+
+// c01LastStore is the last store into al among b.Instrs[:end].
+func c01LastStore(b *ssa.BasicBlock, end int, al *ssa.Alloc) *ssa.Store {
+	for i := end - 1; i >= 0; i-- {
+		if s, ok := b.Instrs[i].(*ssa.Store); ok && s.Addr == ssa.Value(al) {
+			return s
+		}
+	}
+	return nil
+}
+
+// c01ReachingDefs lists the stores into the local cell al that reach load.
+func c01ReachingDefs(load *ssa.UnOp, al *ssa.Alloc) []c01CellDef {
+	b := load.Block()
+	idx := 0
+	for i, in := range b.Instrs {
+		if in == ssa.Instruction(load) {
+			idx = i
+		}
+	}
+	// up the chain of unique predecessors: no merge, one definition
+	seen := map[*ssa.BasicBlock]bool{}
+	for {
+		if s := c01LastStore(b, idx, al); s != nil {
+			return []c01CellDef{{val: s.Val}}
+		}
+		if len(b.Preds) == 0 {
+			return []c01CellDef{{val: al}}
+		}
+		if len(b.Preds) > 1 || seen[b] {
+			break
+		}
+		seen[b] = true
+		b = b.Preds[0]
+		idx = len(b.Instrs)
+	}
+	// b is the merge block nearest to the load: per incoming edge, the stores that reach its end
+	var out []c01CellDef
+	for _, pr := range b.Preds {
+		e := &core.Edge{From: pr, To: b}
+		vis := map[*ssa.BasicBlock]bool{}
+		got := map[ssa.Value]bool{}
+		var back func(x *ssa.BasicBlock)
+		back = func(x *ssa.BasicBlock) {
+			if vis[x] {
+				return
+			}
+			vis[x] = true
+			if s := c01LastStore(x, len(x.Instrs), al); s != nil {
+				if !got[s.Val] {
+					got[s.Val] = true
+					out = append(out, c01CellDef{val: s.Val, edge: e})
+				}
+				return
+			}
+			if len(x.Preds) == 0 {
+				if !got[al] {
+					got[al] = true
+					out = append(out, c01CellDef{val: al, edge: e})
+				}
+				return
+			}
+			for _, y := range x.Preds {
+				back(y)
+			}
+		}
+		back(pr)
+	}
+	return out
+}
+
+// c01LeavesWithEdges is gxLeavesWithEdges that also reads local cells: fn is called
+// for every value that may flow into v, through φ-nodes and through the reaching
+// stores of load/store-only locals; edge is the outermost merge edge the value
+// enters through (a φ edge, or the edge into the merge block in front of the load),
+// nil when v has one definition. A cell without a store on some path yields the
+// Alloc itself as leaf (the zero value: no rule accepts it).
+func c01LeavesWithEdges(v ssa.Value, fn func(leaf ssa.Value, edge *core.Edge)) {
+	var walk func(v ssa.Value, outer *core.Edge, depth int)
+	walk = func(v ssa.Value, outer *core.Edge, depth int) {
+		gxLeavesWithEdges(v, func(leaf ssa.Value, edge *core.Edge) {
+			if outer != nil {
+				edge = outer
+			}
+			u, al := c01CellLoad(core.Strip(leaf))
+			if u == nil || depth >= 4 {
+				fn(leaf, edge)
+				return
+			}
+			for _, d := range c01ReachingDefs(u, al) {
+				if d.val == ssa.Value(al) {
+					fn(al, c01Outer(edge, d.edge))
+					continue
+				}
+				walk(d.val, c01Outer(edge, d.edge), depth+1)
+			}
+		})
+	}
+	walk(v, nil, 0)
+}
+
+func c01Outer(outer, inner *core.Edge) *core.Edge {
+	if outer != nil {
+		return outer
+	}
+	return inner
+}
